@@ -86,11 +86,13 @@ def make_weather(rng, first, last, archetype=None, station_p=0.2):
     rain = np.where(wet, g.gamma(a["k"], a["sc"], n), 0.0)
     et0 = a["em"] + a["ea"] * season + g.normal(0, 0.5, n) - 0.6 * wet
     et0 = np.clip(et0, 0.1, None)
+    # some stations report whole degrees: degree-day sums then land exactly on integer thresholds
+    nd = 0 if rng.random() < 0.15 else 1
     return {
         "start": f"{first.year:04d}/{first.month:02d}/{first.day:02d}",
         "kind": archetype,
-        "tmin": [round(float(x), 1) for x in tmin],
-        "tmax": [round(float(x), 1) for x in tmax],
+        "tmin": [round(float(x), nd) for x in tmin],
+        "tmax": [round(float(x), nd) for x in tmax],
         "precip": [round(float(x), 1) for x in rain],
         "et0": [round(float(x), 2) for x in et0],
     }
